@@ -38,6 +38,7 @@ COMPONENTS = {
              'openhtf.util.atomic_write.atomic_write', 'json.JSONEncoder.iterencode', 'the TestRecord (from a simulated run)'],
     'simulated': ['tempfile / shutil / os / open as named inside those modules (SimFS)'],
 }
+WARMUP = 12
 QUICK = {'budget_s': 40}
 THOROUGH = {'budget_s': 480}
 EXPECTED_PROBES = ['serializer_raise', 'write_error', 'close_error', 'rename_error', 'crash_before_rename',
